@@ -10,6 +10,14 @@
 (*          when the last symbol does not occur; pos = Interval::occ(sa) must *)
 (*          be exactly the occurrence positions (each once) of the matched    *)
 (*          suffix.  The same object answers all searches of a run.           *)
+(* run.cfg = [kind = "unary", n, a, sent, k, s]: closed-form family A^(n-1)$   *)
+(* (n > 2^24; suffix array n-1..0 given in closed form, not logged):           *)
+(*   new_unary    {}  -> n                                                     *)
+(*   search_unary {m} -> kind, lower, upper, len, rows, vals   pattern A^m:    *)
+(*          Complete with interval [m, n) when m <= n-1, else Partial with the *)
+(*          interval [n-1, n) and len = n-1; vals[j] = rows[j] resolved through*)
+(*          the sampled suffix array must be n-1-rows[j] (MC lemma             *)
+(*          SuffixIndexMC_C05!UnaryLemma: this is BackwardSearchOK for small n)*)
 EXTENDS SuffixIndex, Json, IOUtils
 
 Rec == ndJsonDeserialize(IOEnv.TRACE)
@@ -26,6 +34,13 @@ Explains(cfg, e) ==
               /\ Len(p) >= 1 /\ \A i \in 1..Len(p) : p[i] # Sentinel(t) /\ p[i] \in Range(cfg.alpha)
               /\ r.kind \in {Absent, Partial, Complete}
               /\ BackwardSearchOK(p, t, r)
+         [] c.op = "new_unary" -> cfg.kind = "unary" /\ cfg.n >= 2 /\ cfg.a > cfg.sent /\ r.n = cfg.n
+         [] c.op = "search_unary" ->
+              LET n == cfg.n  m == c.a.m  want == UnaryBS(n, m) IN
+              /\ cfg.kind = "unary" /\ m >= 1
+              /\ r.kind = want.kind /\ r.lower = want.lower /\ r.upper = want.upper /\ r.len = want.len
+              /\ Len(r.vals) = Len(r.rows)
+              /\ \A j \in 1..Len(r.rows) : r.rows[j] \in r.lower..(r.upper - 1) /\ r.vals[j] = n - 1 - r.rows[j]
          [] OTHER -> FALSE
 
 \* Cross-check of the specification itself at the real constants (T = 64, the run's Occ rate): the
@@ -34,7 +49,8 @@ Explains(cfg, e) ==
 RECURSIVE BSRun(_, _, _)
 BSRun(st, p, ix) == IF st.j > 0 /\ ~st.brk THEN BSRun(BSStep(st, p, ix), p, ix) ELSE st
 MachineAgrees ==
-    (idx > 1 /\ Rec[run].ev[idx].c.op = "search" /\ Rec[run].ev[1].r.st = "ok") =>
+    (idx > 1 /\ Rec[run].ev[idx].c.op = "search" /\ Rec[run].ev[1].r.st = "ok"
+       /\ Len(Rec[run].cfg.text) <= 200) =>
         LET cfg == Rec[run].cfg  t == Rec[run].cfg.text  n == Len(Rec[run].cfg.text)
             sa  == Rec[run].ev[1].r.sa
             p   == Rec[run].ev[idx].c.a.p
